@@ -53,6 +53,9 @@ CHECKS["C09"] = dict(cat="translation_validation", design="§3 C09, §1.7",
     text="Every shipped equation set is generated through its own entry point (estimator via both generators, rdd2 / rdd2_loglinear / bezier via their __main__ export blocks, mr_ref_traj via the generic generator) with default options, plus single-option flips (thorough: pairs). Per generated function: exported name present (none missing/extra/duplicate), n_in/n_out, argument names and sparsity tables equal the Function's; the straight-line C body is parsed and proved congruent to the Function's instruction list in QF_UF with all operations uninterpreted (bit-identical results under any deterministic IEEE/libm semantics, incl. non-finite values in unselected branches); gcc -Wall -Werror compiles it; the compiled object is executed against CasADi's VM at random points (validation of the parser). Option combinations CasADi rejects must raise.",
     note="trusted: CasADi instruction API, the C parser (cross-executed every run), gcc, IEEE commutativity of + and *. Not addressed: compiler correctness; an export list that omits a derive_* function cannot be noticed (the equation set is whatever the entry point passes to the generator).",
     tech="solver-based translation validation: generated C parsed to an SSA DAG and proved congruent (QF_UF, z3) to the CasADi instruction list; differential execution as parser validation")
+CHECKS["C14"] = dict(cat="proof", design="§3 C14",
+    text="Internal vectors of the shipped derive_* functions are observed by call-through recording (norm_2, cross, from_Matrix) and exposed through an auxiliary Function over the shipped function's own inputs. Per branch cell: the matrix handed to the quaternion extraction is orthonormal with det 1 (position_control, se23_position_control, f_ref, mr_ref_traj, input_auto_level, eulerB321_to_quat); z-axis times thrust magnitude equals the demanded force and thrust = |force|; y-axis perpendicular to the heading; flatness references: thrust = m(g e3 - a), (dz_b/da) j = q x_b - p y_b with CasADi AD of the real code, M_b congruent (QF_UF) to J w' + w x J w; yaw-rate output defined on every cell. Unit quaternion follows from the re-discharged Shepperd leaf lemma. Four genuine defects in degenerate cells are recorded as known findings K1-K4.",
+    note="trusted: as C07 + call-through recording + CasADi AD. Bounds: camera quaternion pure yaw (any yaw); attitude-error part of zeta zero in se23_position_control. NOT decided: agreement of f_ref with mr_ref_traj beyond both meeting the same oracles (instruction lists not congruent), yaw acceleration r_dot, cells the solver cannot exclude but whose models do not reach them on the real code (counted in evidence).")
 CHECKS["C04"] = dict(cat="proof", design="§3 C04",
     text="Ad/ad/bracket of every group/algebra executed symbolically; (Ad_X y)^ = M(X) y^ M(X^-1), Ad homomorphism and inverse, ad = bracket = matrix commutator, antisymmetry, Jacobi, block-diagonal direct-sum ad, and Ad_exp(x) = expm(ad_x) in closed form (Rodrigues / Barfoot quartic) are proved per entry; wrong shapes and crashes of offered operations are violations.",
     note="trusted: as C01 plus the closed forms of expm(ad) and the theorem Ad_{exp A} = expm(ad_A) (used for SE_2(3)/Euler where exp ends in from_Matrix). Operations raising NotImplementedError are out of scope as the property states.")
